@@ -43,7 +43,7 @@ def gen_cases(tier, rng, families):
         n += 1
 
     reps = 12 if tier == "quick" else 400
-    for _ in range(reps):
+    for rep in range(reps):
         if "reader" in families:
             # reader parked between releasing the mutex and reading; rotation + flush + deletion
             # (and optionally a compaction) run to completion meanwhile
@@ -84,6 +84,22 @@ def gen_cases(tier, rng, families):
             st += reads(rng, 2)
             st += ["Uw1", "Jw1", "Jw2", "Jw3", "MA"] + ["MG" + k for k in KEYS]
             add(st)
+        if "group" in families and (tier != "quick" or rep < 4):
+            # group commit at its size limit: the leader after w1 merges queued writers only up to
+            # its own batch + 128 KiB (1 MiB for a large leader batch); a writer that does not fit
+            # must lead its own group later (and must not be acknowledged without being applied)
+            sizes = rng.choice([(100000, 100000, 40000), (120000, 10000, 1000), (60000, 60000, 60000, 60000),
+                                (200000, 500000, 400000), (1000, 131000, 500)])
+            st = ["M" + wtok(rng)]
+            st += ["Aw1:" + rng.choice(WRITE_POINTS[:2]), "Tw1:" + wtok(rng, "P"), "Vw1"]
+            names = []
+            for j, sz in enumerate(sizes):
+                nm = "g%d" % j
+                names.append(nm)
+                st.append("T%s:P%s=p%d.%d.1" % (nm, KEYS[j % len(KEYS)], sz, rng.randrange(256)))
+            # V on a queued writer waits out its timeout: by then every follower is in the queue
+            st += ["MG" + rng.choice(KEYS), "V" + names[-1], "Uw1", "Jw1"] + ["J" + nm for nm in names] + ["MG" + k for k in KEYS]
+            add(st, "8388608:4096:4096:%d" % rng.randrange(2))
         if "bg" in families:
             for pt in BG_POINTS:
                 st = ["M" + wtok(rng, "P") for _ in range(rng.randrange(1, 4))]
